@@ -52,6 +52,17 @@ CHECKS = {
               "{dr,rd,rr} x auto/cross, all autocorrelation combinations, NaN entries."),
         ref="5.C04", technique="Lean 4 theorems over translator-generated kernels + differential correspondence",
         note="sqrt/division correctly rounded (IEEE); np.nansum skips NaN; glue pinned by AST fingerprint"),
+    "C07": dict(
+        text=("Theorems about the tree-cache state machine of a patch (marker file, pickled trees, build with the "
+              "GENERATED reuse rule, re-open, measure): cached trees are reused only for an identical binning (same "
+              "edges AND closed side, or both unbinned); every reachable state is consistent (the marker describes the "
+              "trees on disk); after a build the trees are those of the requested binning; MAIN history_free: for every "
+              "finite history a measurement counts with trees built for its own binning, exactly as on fresh caches. "
+              "Tie: generated binning_equal / Binning.__eq__ kernel + AST pins of build/__init__/trees; random histories "
+              "on real caches compare marker bytes and per-bin tree sizes with the model after every operation and the "
+              "final CorrFunc with fresh caches."),
+        ref="5.C07", technique="Lean 4 invariant proof over a cache state machine with generated reuse rule + history correspondence",
+        note="pickle round trip and program-order file writes trusted; in-memory state of the process is observed only through the final result"),
     "C10": dict(
         text=("Theorems (all edge arrays, both closed sides, every rational redshift incl. exact edge values): the "
               "tree bin assignment built from the generated np.digitize arguments and keep-range equals the closed-side "
